@@ -1,5 +1,6 @@
 import XrsVerif.Proofs.Polygonize
 import XrsVerif.Proofs.PolygonizeOrbit
+import XrsVerif.Proofs.PolygonizeRegions
 /-
   C15 -- polygonize is lossless.
 
@@ -9,7 +10,12 @@ import XrsVerif.Proofs.PolygonizeOrbit
   else Left), `followLoop`/`follow` (vertex recorded when the heading changes, visited flags), `scan`
   (exterior / hole starts, hole attachment), `polygonizeNumpy` (nx = 1 workaround, transform).
 
-  Proved here, for every raster size, region array and start:
+  Proved here, for every raster size, values, mask, region array and start:
+  * `regions_are_components`  `_calculate_regions` (W/S/SW/SE rules, merge lookup with re-linking, compaction):
+                              masked pixels get 0, unmasked pixels a positive id, and two unmasked pixels
+                              get the same id exactly when a chain of 4- (8-) adjacent unmasked pixels with
+                              close values joins them inside the raster (closeness symmetric + transitive,
+                              i.e. integer rasters; needed only for the SW/SE short-cuts);
   * `follow_invariant`        every state keeps the region on its left and a pixel outside the region (or
                               outside the raster) on its right;
   * `follow_axis_parallel`    every iteration moves the current vertex by one unit along the heading:
@@ -26,9 +32,8 @@ import XrsVerif.Proofs.PolygonizeOrbit
 
   NOT proved (the gap): that the rings, rasterised with the even-odd rule at the pixel centres, give back
   exactly the regions (a discrete Jordan-curve argument), that the shoelace area equals the pixel count
-  (discrete Green), the orientation claim, that `calculateRegions` yields the connected components with
-  first-pixel ranks (union-find invariant of the merge lookup), and that `scan` attaches every hole to the
-  right exterior.  The complete statement is `Polygonize.losslessB` (a decidable check of a result against
+  (discrete Green), the orientation claim, that the region ids are the *ranks* of the first pixels (that they
+  are the components is proved), and that `scan` attaches every hole to the right exterior.  The complete statement is `Polygonize.losslessB` (a decidable check of a result against
   the raster, with connectivity expressed through the C16 labelling whose correctness Props/C16 proves);
   below it is evaluated by the kernel on concrete rasters (hole, diagonal pinch, mask, single column) and
   the correspondence run checks it -- through an independent Python oracle -- on the real code for every
@@ -37,6 +42,38 @@ import XrsVerif.Proofs.PolygonizeOrbit
 set_option linter.unusedVariables false
 namespace XrsVerif.C15
 open XrsVerif XrsVerif.Polygonize
+
+/-- `_calculate_regions` computes the connected components: a masked pixel gets region 0, an unmasked
+    pixel a positive region, and two unmasked pixels get the same region exactly when they are joined by
+    a chain of links -- `Link p q`: `p` a pixel of the raster, `q` its W or S (connectivity 8: or SW, SE)
+    neighbour, both unmasked, values close. -/
+theorem regions_are_components {V : Type} (nx ny : Nat) (conn8 : Bool) (close : V → V → Bool)
+    (values : Nat → V) (mask : Nat → Bool) (hnx : 0 < nx)
+    (hsymm : ∀ a b, close a b = true → close b a = true)
+    (htrans : ∀ a b c, close a b = true → close b c = true → close a c = true)
+    {p q : Nat} (hp : p < nx * ny) (hq : q < nx * ny) :
+    (mask p = false → regionId nx ny conn8 close values mask p = 0) ∧
+    (mask p = true → 1 ≤ regionId nx ny conn8 close values mask p) ∧
+    (mask p = true → mask q = true →
+      (regionId nx ny conn8 close values mask p = regionId nx ny conn8 close values mask q ↔
+        ConnP nx conn8 close values mask (nx * ny) p q)) :=
+  regionId_spec nx ny conn8 close values mask hnx hsymm htrans hp hq
+
+/-- the list returned by `calculateRegions` (what the driver prints and `scan` uses) is `regionId` -/
+theorem regions_list {V : Type} (nx ny : Nat) (conn8 : Bool) (close : V → V → Bool) (values : Nat → V)
+    (mask : Nat → Bool) :
+    calculateRegions nx ny conn8 close values mask =
+      (List.range (nx * ny)).map (regionId nx ny conn8 close values mask) :=
+  calculateRegions_eq nx ny conn8 close values mask
+
+/-- the merge loop of `_merge_regions` keeps every pointer going to a smaller id and adds exactly the
+    pair (lower, upper) to the equivalence generated by the pointers -/
+theorem merge_chain_connected (lk : Lookup) (lower upper : Nat) (hF : Forest lk.get) (hl : 0 < lower)
+    (hlu : lower < upper) :
+    Forest (mergeLoop (upper + 1) lk lower upper).get ∧
+    ∀ u v, Eqv (mergeLoop (upper + 1) lk lower upper).get u v ↔ EqvPlus lk.get lower upper u v :=
+  ⟨(mergeLoop_spec (upper + 1) lk lower upper hF hl hlu (by omega)).1,
+   (mergeLoop_spec (upper + 1) lk lower upper hF hl hlu (by omega)).2.1⟩
 
 /-- every state of the follower keeps the region on its left (its own pixel) and a pixel that is not in
     the region -- or the outside of the raster -- on its right -/
@@ -144,6 +181,16 @@ example : (polygonizeNumpy 1 3 false eqI (fun ij => if ij = 2 then 2 else 1) (fu
 /-- the check rejects a wrong result (the hole dropped) -/
 example : losslessB 3 3 false eqI ringV (fun _ => true) [1, 0]
     [[[(0, 0), (3, 0), (3, 3), (0, 3), (0, 0)]], [[(1, 1), (2, 1), (2, 2), (1, 2), (1, 1)]]] = false := by
+  decide +kernel
+/-- the hypotheses of `regions_are_components` hold for integer equality; `Link` is inhabited -/
+example : (∀ a b : Int, eqI a b = true → eqI b a = true) ∧
+    (∀ a b c : Int, eqI a b = true → eqI b c = true → eqI a c = true) := by
+  simp only [eqI, beq_iff_eq]
+  exact ⟨fun a b h => h.symm, fun a b c h1 h2 => h1.trans h2⟩
+example : Link 3 false eqI ringV (fun _ => true) 9 1 0 := by
+  refine ⟨by decide, by decide, rfl, rfl, by decide⟩
+/-- a U-shape whose arms meet late: ids 1 and 2 are merged through the lookup -/
+example : calculateRegions 3 2 false eqI (fun ij => if ij = 1 then 0 else 1) (fun _ => true) = [1, 2, 1, 1, 1, 1] := by
   decide +kernel
 /-- the start states of `lossless_partial` exist: exterior of the ring region, and its hole -/
 example : Valid (inRegion 3 3 (fun ij => if ij = 4 then 2 else 1) 1) ⟨0, 0, .E⟩ := by decide
